@@ -64,11 +64,12 @@ class MpStudyEngine(EngineBase):
         M = self.M
         ref = workload.Reference(plan)
         fs = SimFS(bufsize=plan.get('bufsize', 8192), listdir_seed=plan.get('listdir_seed', 0))
+        study_dir = '/sim/' + plan.get('dir_name', 'study')
         ds = plan.get('dir_state', 'absent')
         if ds != 'parent_absent':
             fs.mkdirs_raw('/sim')
         if ds == 'empty':
-            fs.mkdirs_raw(STUDY_DIR)
+            fs.mkdirs_raw(study_dir)
         input_data = []
         for i in plan['inputs']:
             must = i['must']['vals']
@@ -121,7 +122,7 @@ class MpStudyEngine(EngineBase):
                 kwargs['postprocess_func'] = post_fn
 
             def main(_kw=kwargs):
-                return M.multiprocessing_run(STUDY_DIR, 'sim study', workload.study_fn, input_data, **_kw)
+                return M.multiprocessing_run(study_dir, 'sim study', workload.study_fn, input_data, **_kw)
 
             with Stubs(M, fs, kernel, plan.get('cpus', 16), 10 ** 18, stats):
                 parent = kernel.run(main)
@@ -143,7 +144,7 @@ class MpStudyEngine(EngineBase):
                 bump('fault:kill_fired')
                 bump('fault:kill_before:' + (kernel.kill_context or '').split(' before ')[-1].split(' ')[0])
                 sets['crash_states'].append(fs.image_digest())
-                self._crash_probes(fs, bump)
+                self._crash_probes(fs, bump, study_dir)
             elif isinstance(parent.exc, BaseException):
                 outcome = {'kind': 'raised', 'type': type(parent.exc).__name__, 'msg': str(parent.exc)[:300]}
             else:
@@ -197,7 +198,7 @@ class MpStudyEngine(EngineBase):
         if plan.get('_details'):
             from .realrun import tree_summary
             files, _ = fs.image()
-            pre = STUDY_DIR + '/'
+            pre = study_dir + '/'
             details = {'tree': tree_summary({p[len(pre):]: b for p, b in files.items() if p.startswith(pre)}),
                        'executed': sorted(((c, a) for c, a, s in records), key=lambda t: (t[1], -1 if t[0] is None else t[0])),
                        'outcomes': outcomes}
@@ -211,10 +212,10 @@ class MpStudyEngine(EngineBase):
         }
 
     @staticmethod
-    def _crash_probes(fs, bump):
+    def _crash_probes(fs, bump, study_dir=STUDY_DIR):
         """Non-gating probes over the durable image at a kill (what crash states were reached)."""
         files, dirs = fs.image()
-        if STUDY_DIR + '/tpy_mp.log' in files and len(files[STUDY_DIR + '/tpy_mp.log']) == 0:
+        if study_dir + '/tpy_mp.log' in files and len(files[study_dir + '/tpy_mp.log']) == 0:
             bump('probe:crash_with_empty_journal')
         for p in files:
             if p.endswith('/mp_success.log'):
